@@ -191,7 +191,27 @@ def shrink_candidates(inp):
 
 
 MANIFEST = {
-    "level_claimed": {"category": "proof", "text": "TODO", "design_ref": "DESIGN.md §5 C15"},
-    "level_note": "TODO",
-    "technique": "Coq proof (per-step case analysis + induction over histories) + differential correspondence on DeliverTx traces",
+    "level_claimed": {
+        "category": "proof",
+        "text": ("Coq theorems over a string-level model of the token-factory message server on a bank ledger (denom parsing as the "
+                 "strings.Split it is, admin checks as string equalities, blocked accounts, tx rollback), for EVERY state, message and "
+                 "history. The statement to the letter is REFUTED (C15_supply_changes_only_by_admin_mint_burn_refuted: MsgBurnNative takes "
+                 "any denom, a non-admin holder lowers a tf supply; replayed on the implementation, open known finding). Proved instead: "
+                 "C15_supply_changes_only_by_admin_mint_burn_partial (supply moves only by an admin-signed Mint/Burn of exactly the amount, "
+                 "or by a native burn of exactly that amount of the signer's OWN coins) and ..._except_native (to the letter for every other "
+                 "message); C15_admin_handover_only_by_admin; C15_create_by_embedded_creator / C15_create_once_by_embedded_creator (over any "
+                 "later history); C15_non_tf_denoms_untouched (+ over histories); C15_balance_moves_only_as_target; C15_conservation; "
+                 "C15_former_admin_rejected / C15_not_admin_rejected. The model is run against real DeliverTx traces (snapshots of supply, "
+                 "balances, admins after every message) and the proved-sound checker Pb (C15_checker_sound) is evaluated on those traces in "
+                 "its strict form."),
+        "design_ref": "DESIGN.md §5 C15",
+    },
+    "level_note": ("PARTIAL w.r.t. the statement: the first clause holds only with the extra MsgBurnNative disjunct (theorem ..._partial); the "
+                   "strict form is kept, proved refuted, and evaluated on traces by default -> KNOWN-FINDING {kind: burnnative-moves-tf-supply} on "
+                   "every run (C15_LENIENT=1 evaluates the realised form). signature() identifies the known finding only when the lenient "
+                   "checker holds on the record and model = implementation (decided by coqc on that record). Flags taken from the "
+                   "implementation: sdk.ValidateDenom, bech32 parsing of mint_to/burn_from/new_admin, bank Metadata.Validate, BlockedAddr. "
+                   "One message per tx, fee 0, correctly signed; no generated facts (the property has no configuration-like part). "
+                   "Trusted: Coq kernel + vm_compute, the driver's address renaming (@i / @Ui, injective) and snapshot reads."),
+    "technique": "Coq proof (per-message case analysis, invariants and induction over histories; refutation by vm_compute witness) + differential correspondence on DeliverTx traces",
 }
